@@ -786,7 +786,7 @@ func main() {
 			}
 			one(c, cs, "corpus")
 		}
-		n := c.Budget(450, 9000)
+		n := c.Budget(1000, 12000)
 		start := time.Now()
 		for i := 0; i < n && c.NFailures() < 3; i++ {
 			kind := "mixed"
